@@ -1244,6 +1244,9 @@ def main(outfile):
     py2lean_wiring.main_wiring(os.path.join(os.path.dirname(outfile), 'TranslatedWiring.lean'), write_if_changed)
     import py2lean_initsb                                        # separate module: Circuit.init_sblock and the sync loops (C05)
     py2lean_initsb.main_initsb(os.path.join(os.path.dirname(outfile), 'TranslatedInitSb.lean'), sys.modules[__name__])
+    import py2lean_fsmtimer
+    py2lean_fsmtimer.main_fsmtimer(os.path.join(os.path.dirname(outfile), 'TranslatedFsmTimer.lean'), sys.modules[__name__])
+
 
 if __name__ == '__main__':
     main(sys.argv[1])
